@@ -22,10 +22,13 @@ func propC12(r *Report, tier string) {
 	ruleCopyScheduledPairing(r, "K12-copy-scheduled-pairing")
 	rulePurgerCallers(r, "K7-purger-callers")
 	ruleRefPairing(r, "K1-ref-pairing")
+	ruleDeferObservedErr(r, "K1-defer-observed-error", "index/scorch", "index/scorch/mergeplan", "index/upsidedown", "index/upsidedown/store/boltdb", "index/upsidedown/store/moss", "index/upsidedown/store/gtreap", "")
 	r.Floor("K7-who-may-remove-files", 3)
 	r.Floor("K5-purger-guards", 6)
 	r.Floor("K5-purge-bolt-first", 4)
 	r.Floor("K5-mark-before-create", 6)
+	r.Floor("K5-unmark-after-commit", 12)
+	r.Floor("K1-defer-observed-error", 6)
 	r.Floor("K12-copy-scheduled-pairing", 5)
 	r.Floor("K7-purger-callers", 2)
 	r.Floor("K1-ref-pairing", 8)
@@ -380,6 +383,51 @@ func ruleUnmarkAfterCommit(r *Report, rule string) {
 			for _, c := range callsMatching(info, fi.Decl.Body, methodIs(scorchPkg, "Scorch", "unmarkIneligibleForRemoval")) {
 				ok := len(rootStores) == 1 && g.DominatesNode(rootStores[0].Stmt, c)
 				r.Ob(rule, fi.Name+"/dropped-files-unmarked-after-swap", c.Pos(), ok, "files of dropped segments become removable only after the root that no longer uses them is published")
+				// the un-marked names come from a local list; every append to that list is
+				// exclusive (within one loop iteration) with carrying the segment into the new root
+				var list types.Object
+				for _, anc := range enclosing(fi.Decl.Body, c) {
+					if rs, ok := anc.(*ast.RangeStmt); ok && rs.Value != nil && len(c.Args) == 1 && objOf(info, rs.Value) == objOf(info, c.Args[0]) {
+						list = objOf(info, rs.X)
+					}
+				}
+				if list == nil {
+					r.Ob(rule, fi.Name+"/unmarked-names-come-from-dropped-list", c.Pos(), false, "un-mark argument is not an element of a local list of dropped files (idiom not recognised)")
+					continue
+				}
+				var carries []ast.Node
+				ast.Inspect(fi.Decl.Body, func(x ast.Node) bool {
+					as, ok := x.(*ast.AssignStmt)
+					if ok && len(as.Lhs) == 1 && isField(info, as.Lhs[0], "IndexSnapshot", "segment") {
+						if ac, ok := as.Rhs[0].(*ast.CallExpr); ok && calleeBuiltin(info, ac) == "append" {
+							carries = append(carries, as)
+						}
+					}
+					return true
+				})
+				na := 0
+				ast.Inspect(fi.Decl.Body, func(x ast.Node) bool {
+					as, ok := x.(*ast.AssignStmt)
+					if !ok || len(as.Lhs) != 1 || objOf(info, as.Lhs[0]) != list {
+						return true
+					}
+					ac, ok := as.Rhs[0].(*ast.CallExpr)
+					if !ok || calleeBuiltin(info, ac) != "append" {
+						return true
+					}
+					na++
+					excl := len(carries) > 0
+					for _, cs := range carries {
+						if g.ReachesFwdNode(cs, as) || g.ReachesFwdNode(as, cs) {
+							excl = false
+						}
+					}
+					r.Ob(rule, fi.Name+"/dropped-list-excludes-carried-segments", as.Pos(), excl, "a file name is queued for un-marking only on a path that does not carry that segment into the new root (same loop iteration): un-marking the file of a segment that is still in the root lets the purger delete a file no committed snapshot names yet")
+					return true
+				})
+				if na == 0 {
+					r.Ob(rule, fi.Name+"/dropped-list-excludes-carried-segments", c.Pos(), false, "no append to the dropped-files list found")
+				}
 			}
 		}
 	}
